@@ -307,7 +307,9 @@ class SciProxy(object):
         if name == 'momentum_and_energy':
             mk = self._mk
             r, t_ = mk('rho1'), mk('T1')
-            for v in func([r, t_]):
+            res = func([r, t_])
+            _RES[:] = list(res)
+            for v in res:
                 ex.assume(T.eq(term_of(v), T.ZERO))
             return H.arr([r, t_])
         return stubs.fsolve_stub(func, x0, args, **kw)
@@ -322,6 +324,7 @@ def sym_int(x=0, *a):
 
 
 _MK = [None]
+_RES = []
 
 
 def _A(mk, names):
@@ -346,10 +349,17 @@ def fake_make_2T_solution(self):
         self.Pr_precursor, self.Pr_relaxation = ypre, yrel
     elif 'FLD' in prob:
         self.Er_precursor, self.Er_relaxation = ypre, yrel
-        self.Lambda_precursor = [mk('Lp0'), mk('Lp1')]
-        self.R_precursor = [mk('Rp0'), mk('Rp1')]
-        self.Lambda_relaxation = [mk('Lr0'), mk('Lr1')]
-        self.R_relaxation = [mk('Rr0'), mk('Rr1')]
+        # the integration loop records (self.Lambda, self.R) as left behind by the rhs evaluation (fnctn.dEdx) of each
+        # step: evaluate the real dEdx at each table node and record them the same way
+        fn = H.mod(UT).fnctn
+        for side, ys, ms in (('precursor', ypre, self.Mach_precursor), ('relaxation', yrel, self.Mach_relaxation)):
+            lam, rr = [], []
+            for y_, m_ in zip(ys, ms):
+                fn.dEdx(y_, m_, self)
+                lam.append(self.Lambda)
+                rr.append(self.R)
+            setattr(self, 'Lambda_' + side, lam)
+            setattr(self, 'R_' + side, rr)
     self.splice_precursor_and_relaxation()
 
 
@@ -357,24 +367,74 @@ NODE_NAMES = ('upstream', 'precursor', 'shock-', 'shock+', 'relaxation', 'downst
 VARIANTS = ('nED', 'LM_nED', 'FLD_1', 'FLD_2', 'FLD_poly', 'FLD_LP')
 
 
+class Rew(object):
+    """Rewriting of claim terms before they go to z3 (symbolic mode; identity on floats).
+    `let(value, 'name')` generalises: every occurrence of the term of `value` becomes a fresh variable, so a claim proved
+    afterwards holds for ALL values of that sub-expression (sound for unsat; a sat witness is replayed on the real code).
+    `let(value, other)` rewrites with an equality that is itself proved as a separate claim of the same obligation."""
+
+    def __init__(self, cx, base=None):
+        self.sym = cx.symbolic
+        self.map = dict(base.map) if base is not None else {}
+
+    def let(self, value, to):
+        if self.sym:
+            self.map[term_of(value)] = T.var(to) if isinstance(to, str) else term_of(to)
+        return self
+
+    def __call__(self, v):
+        if not self.sym:
+            return v
+        return SymReal(T.substitute(term_of(v), self.map))
+
+    def var(self, name, concrete):
+        return SymReal(T.var(name)) if self.sym else concrete
+
+
+def near(cx, a, b, tol=1e-9):
+    """a == b as a precondition: SymBool in symbolic mode, tolerance test on floats"""
+    if cx.symbolic:
+        return SymBool(T.eq(term_of(a), term_of(b)))
+    return abs(a - b) <= tol * max(abs(a), abs(b), 1e-300)
+
+
+def pos(cx, *vals):
+    if cx.symbolic:
+        return SymBool(T.land(*[T.gt(term_of(v), T.ZERO) for v in vals]))
+    return all(v > 0 for v in vals)
+
+
 class Flux(Obligation):
     """nED_Solver(...) end to end with the Mach-space integration replaced by arbitrary node tables: at every node of the
-    assembled, dimensionalised profile the three total fluxes equal their far-upstream values"""
+    assembled nondimensional profile the three total fluxes equal their far-upstream values (C12.dim.* shows that the
+    dimensional fluxes are a common scale times these).
 
-    def __init__(self, variant, exps=False, eps=False, nodes=(0, 1, 4, 5)):
+    The energy claim is proved in steps, each of them a z3-decided claim on terms of the real code:
+      (a) flux_i == C0 * K_i, K_i = the constant the real dPdx subtracts at node i (the energy flux of the equilibrium
+          state on the node's side of M = 1, obtained by calling the same real functions with the same arguments);
+          proved with the node density, K_i, P0, C0 generalised to free variables;
+      (b) C0 * K_i == upstream total energy flux.  Downstream side: with the contract residuals (res_mom, res_en) of the
+          real momentum_and_energy kept as terms, first density(Pr1, M1) == rho1 and T(Pr1, M1) == T1, then, rewriting with
+          these two, C0*K - upstream == M0 * res_en / rho1^2 (an identity; res_en == 0 is the fsolve contract);
+      (c) flux_i == upstream, assuming (b) for the generalised K."""
+
+    def __init__(self, variant, exps=False, eps=False, nodes=(0, 1, 2, 3, 4, 5)):
         self.variant, self.exps, self.eps, self.nodes = variant, exps, eps, tuple(nodes)
+        self.fld = 'FLD' in variant
         self.id = 'C12.flux.%s%s%s' % (variant, '.exps' if exps else '', '.eps' if eps else '')
         ut = H.mod(UT)
-        fn = H.mod(FN['FLD' if 'FLD' in variant else 'nED'])
+        fn = H.mod(FN['FLD' if self.fld else 'nED'])
         self.modules = [H.mod(RS), H.mod(RK), ut, fn]
         cls = H.mod(RS).nED_Solver
         self.functions = [cls.__init__, cls.setup_solver, H.mod(RK).RadShock.__init__, H.mod(RK).greyNED_RadShock.nED_driver,
                           ut.ED_ShockProfiles.__init__, ut.nED_ShockProfiles.__init__, ut.RadShockProfile.downstream_equilibrium,
                           ut.ShockMethods_2T.splice_precursor_and_relaxation, fn.mat_density, fn.mat_temp, fn.mat_speed,
                           fn.mat_pres, fn.rad_flux, fn.dPdx, fn.rad_flux2, fn.mat_total_energy, fn.mat_beta, fn.rad_temp]
+        if self.fld:
+            self.functions.append(fn.dEdx)
         self.bounds = ('closure %s; 6-node profile (end states + 2 precursor + 2 relaxation nodes, arbitrary symbolic (P|E, Mach, '
-                       'x%s) per node); M0, rho0, gamma, Cv, Tref, sigA, sigS%s%s symbolic; claims at nodes %s'
-                       % (variant, ', Lambda, R' if 'FLD' in variant else '',
+                       'x) per node%s); M0, rho0, gamma, Cv, Tref, sigA, sigS%s%s symbolic; claims at nodes %s'
+                       % (variant, '; flux limiter (Lambda, R) of each node from the real dEdx at that node' if self.fld else '',
                           ', the four cross-section exponents' if exps else ' (cross-section exponents 0)',
                           ', epsilon' if eps else ' (epsilon 1)', ','.join(NODE_NAMES[i] for i in self.nodes)))
         self.max_paths = 24
@@ -398,6 +458,7 @@ class Flux(Obligation):
     def build(self, mk):
         mk = tolerant(mk)
         _MK[0] = mk
+        _RES[:] = []
         sym_ = Mode.symbolic(mk)
         if sym_:
             # the SciProxy of this run must see this run's mk
@@ -410,21 +471,25 @@ class Flux(Obligation):
             s = H.mod(RS).nED_Solver(**p)
         prob = s._nED_Solver__prob
         prof = prob.nED_profile
-        out = {'a0': sound_oracle(None, p['gamma'], p['Cv'], p['Tref'], sym_), 'c': prob.c, 'ar': prob.ar}
-        out.update({'p_' + k: v for k, v in p.items() if k != 'problem'})
-        for k in ('Tm', 'Tr', 'Fr', 'Density', 'Speed', 'Pressure', 'SIE', 'RADE', 'Sound_Speed'):
-            out['s_' + k] = getattr(s, k)
-        for k in ('Fr', 'Pr', 'Mach', 'Density', 'Speed', 'Pressure', 'Tm', 'Tr', 'SIE'):
-            out['nd_' + k] = getattr(prof, k)
-        out.update(P0=prob.P0, C0=prob.C0, rho1=prof.rho1, T1=prof.T1, M1=prof.M1)
-        # the two constants the code subtracts in dPdx (energy flux of the equilibrium state on each side of M = 1),
-        # obtained by calling the same real functions with the same arguments
+        out = {'M0': p['M0'], 'gamma': p['gamma']}
+        for k in ('Fr', 'Pr', 'Er', 'Mach', 'Density', 'Speed', 'Pressure', 'Tm', 'Tr'):
+            out[k] = getattr(prof, k)
+        out['SIE'] = prof.SIE
+        out.update(P0=prob.P0, C0=prob.C0, rho1=prof.rho1, T1=prof.T1, M1=prof.M1, speed1=prof.speed1)
+        out['res_mom'], out['res_en'] = (_RES[0], _RES[1]) if sym_ else (0.0, 0.0)
+        # K_i: the constant the code subtracts in dPdx at node i, through the same real calls with the same arguments
         fn = ut.fnctn
-        y0, y1 = (prof.Er0, prof.Er1) if 'FLD' in self.variant else (prof.Pr0, prof.Pr1)
-        with patched(prof, **({'Lambda': 1. / 3., 'R': 0.} if 'FLD' in self.variant else {})):
-            for tag, y, m_ in (('up', y0, prof.M0), ('down', y1, prof.M1)):
-                out['K' + tag] = fn.mat_beta(y, m_, prof) * (fn.mat_total_energy(y, m_, prof)
-                                                             + prob.P0 * fn.rad_flux2(y, m_, prof))
+        y0, y1 = (prof.Er0, prof.Er1) if self.fld else (prof.Pr0, prof.Pr1)
+        Ks = []
+        for i in range(6):
+            y, m_ = (y0, prof.M0) if i < 3 else (y1, prof.M1)
+            ctx_ = patched(prof, Lambda=prof.Lambda[i], R=prof.R[i]) if self.fld else contextlib.nullcontext()
+            with ctx_:
+                Ks.append(fn.mat_beta(y, m_, prof) * (fn.mat_total_energy(y, m_, prof)
+                                                      + prob.P0 * fn.rad_flux2(y, m_, prof)))
+        out['K'] = H.arr(Ks) if sym_ else np.array([float(k) for k in Ks])
+        if self.fld:
+            out['Lambda'], out['R'] = prof.Lambda, prof.R
         return out
 
     def domain(self, V):
@@ -441,43 +506,77 @@ class Flux(Obligation):
              T.lt(T.mul(V('M0'), V('M0')), T.mul(T.mul(V('rho1'), V('rho1')), V('T1')))]
         if self.eps:
             d.append(T.gt(V('epsilon'), T.ZERO))
-        if 'FLD' in self.variant:
-            for n in ('Lp0', 'Lp1', 'Lr0', 'Lr1'):
-                d.append(T.gt(V(n), T.ZERO))
         return d
 
     def claims(self, cx):
-        a0, rho0, g, Cv, Tref, M0 = (cx[k] for k in ('a0', 'p_rho0', 'p_gamma', 'p_Cv', 'p_Tref', 'p_M0'))
-        c, ar = cx['c'], cx['ar']
-        Er0 = ar * Tref * Tref * Tref * Tref
-        u0 = M0 * a0
-        mass0 = rho0 * u0
-        mom0 = rho0 * u0 * u0 + rho0 * a0 * a0 / g + Er0 / 3
-        en0 = u0 * (rho0 * u0 * u0 / 2 + rho0 * Cv * Tref + rho0 * a0 * a0 / g) + u0 * 4 * Er0 / 3
-        eddington = 'FLD' not in self.variant
+        M0, g, P0, C0 = cx['M0'], cx['gamma'], cx['P0'], cx['C0']
+        rho1, T1 = cx['rho1'], cx['T1']
+        R0 = Rew(cx).let(P0, 'P0v').let(C0, 'C0v')
+        P0v, C0v = R0(P0), R0(C0)
+        mom_up = M0 * M0 + 1 / g + P0v / 3
+        en_up = M0 * (M0 * M0 / 2 + 1 / (g * (g - 1)) + 1 / g) + P0v * M0 * 4 / 3
+        okP = pos(cx, P0v, C0v)
+        # the fsolve contract with P0 generalised like everything else (the path condition states it for the real P0 term)
+        root = okP & near(cx, R0(cx['res_mom']), 0) & near(cx, R0(cx['res_en']), 0)
+        # ---- downstream equilibrium state of the assembled profile == the fsolve root
+        d5, p5 = cx['Density'][5], cx['Pressure'][5]
+        cx.eq('downstream node: density(Pr1, M1) == rho1 (momentum balance of the root)', R0(d5), rho1, when=root)
+        That = None
+        if cx.symbolic:
+            tp = term_of(p5)
+            if tp.op == 'div' and tp.args[0].op == 'mul' and tp.args[0].args[0] is term_of(d5):
+                That = SymReal(tp.args[0].args[1])         # the material temperature as dPdx / mat_pres spell it
+        R5 = Rew(cx, R0).let(d5, rho1)
+        if That is not None:
+            cx.eq('downstream node: temperature(Pr1, M1) == T1 (rewriting density := rho1)', R5(That), T1, when=root)
+            R5.let(That, T1)
         for i in self.nodes:
             nm = NODE_NAMES[i]
-            rho, u, p, e = (cx['s_' + k][i] for k in ('Density', 'Speed', 'Pressure', 'SIE'))
-            Tm, Tr, rade = cx['s_Tm'][i], cx['s_Tr'][i], cx['s_RADE'][i]
-            prad = Er0 * cx['nd_Pr'][i]
-            frad = c * Er0 * cx['nd_Fr'][i]
-            cx.eq('mass flux at the %s node == rho0 M0 a0' % nm, rho * u, mass0)
+            rho, u, p, e, Tm, Tr = (cx[k][i] for k in ('Density', 'Speed', 'Pressure', 'SIE', 'Tm', 'Tr'))
+            Pr, Er, Fr, Mi, K = (cx[k][i] for k in ('Pr', 'Er', 'Fr', 'Mach', 'K'))
+            cx.eq('mass flux at the %s node == M0' % nm, rho * u, M0)
             cx.eq('total momentum flux (with radiation pressure) at the %s node == upstream value' % nm,
-                  rho * u * u + p + prad, mom0)
-            cx.eq('total energy flux (with radiation flux) at the %s node == upstream value' % nm,
-                  u * (rho * u * u / 2 + rho * e + p) + frad, en0)
-            cx.eq('ideal gas: e == Cv T at the %s node' % nm, e, Cv * Tm)
-            cx.eq('ideal gas: sound_speed^2 == gamma p / rho at the %s node' % nm,
-                  cx['s_Sound_Speed'][i] * cx['s_Sound_Speed'][i] * rho, g * p)
-            if eddington:
-                cx.eq('Eddington closure: radiation pressure == rade/3 at the %s node' % nm, prad * 3, rade)
-            if i in (0, 5):
-                cx.eq('%s state in radiative equilibrium: T_rad == T_mat' % nm, Tr, Tm)
-                cx.eq('%s state in radiative equilibrium: radiation flux == (4/3) u E_r' % nm, frad * 3, 4 * u * rade)
+                  R0(rho * u * u + p + P0 * Pr), mom_up, when=okP)
+            cx.eq('ideal gas: p == rho T / gamma at the %s node' % nm, p * g, rho * Tm)
+            cx.eq('ideal gas: e == T / (gamma (gamma-1)) at the %s node' % nm, e * g * (g - 1), Tm)
+            cx.eq('local Mach number: Mach^2 T == u^2 at the %s node' % nm, Mi * Mi * Tm, u * u)
+            cx.eq('radiation temperature: Tr^4 == Er at the %s node' % nm, Tr * Tr * Tr * Tr, Er)
+            if not self.fld:
+                cx.eq('Eddington closure: Pr == Er/3 at the %s node' % nm, Pr * 3, Er)
+            flux = u * (rho * u * u / 2 + rho * e + p) + P0 * C0 * Fr
+            # (a) what the code conserves by construction
             if i == 0:
-                cx.eq('upstream density == rho0', rho, rho0)
-                cx.eq('upstream speed == M0 a0', u, u0)
-                cx.eq('upstream temperature == Tref', Tm, Tref)
+                Ra = R0
+            elif i == 5:
+                Ra = R5                      # density := rho1, temperature := T1 (both proved above)
+            else:
+                Ra = Rew(cx, R0).let(rho, 'r').let(K, 'k')
+            kv = Ra(K)
+            okr = okP & pos(cx, Ra(rho))
+            cx.eq('(a) energy flux at the %s node == C0 * (constant subtracted by dPdx there)' % nm,
+                  Ra(flux), C0v * kv, when=okr)
+            # (b) that constant is the upstream total energy flux
+            if i < 3:
+                cx.eq('(b) constant subtracted by dPdx at the %s node == upstream total energy flux' % nm,
+                      C0v * R0(K), en_up, when=okP)
+            else:
+                cx.eq('(b) constant subtracted by dPdx at the %s node == upstream total energy flux (fsolve contract)' % nm,
+                      (C0v * R5(K) - en_up) * rho1 * rho1, M0 * R0(cx['res_en']) if cx.symbolic else 0.0, when=okP,
+                      scale=None if cx.symbolic else [en_up * rho1 * rho1])
+            # (c) the property, given (b)
+            cx.eq('total energy flux (with radiation flux) at the %s node == upstream value' % nm,
+                  Ra(flux), en_up, when=okr & near(cx, C0v * kv, en_up) & (near(cx, Ra(flux), C0v * kv) if i == 5 else True))
+            if i in (0, 5):
+                cx.eq('%s state in radiative equilibrium: T_rad == T_mat' % nm, Ra(Tr), Ra(Tm), when=okr)
+                cx.eq('%s state in radiative equilibrium: radiation flux == (4/3) beta Er' % nm, Ra(Fr * C0 * 3),
+                      Ra(4 * u * Er), when=okr)
+            if i == 0:
+                cx.eq('upstream density == 1 (rho0 after scaling)', rho, 1)
+                cx.eq('upstream speed == M0 (M0 a0 after scaling)', u, M0)
+                cx.eq('upstream temperature == 1 (Tref after scaling)', Tm, 1)
+            if i == 5:
+                cx.eq('downstream temperature == T1', R5(Tm), T1, when=okP)
+                cx.eq('coded M1 == speed1 / sqrt(T1), speed1 == M0 / rho1', cx['M1'] * cx.sqrt(T1) * rho1, M0)
 
 
 def obligations(tier):
